@@ -180,6 +180,7 @@ def impl(case):
                     return pd.Series(vals, dtype=dtype, name=names[0])
                 add("pd_series_Float64", lambda: h1(nullable("Float64"), bins1, weights=ww, **akw), True)
                 if d["ints"] == "T": add("pd_series_Int64", lambda: h1(nullable("Int64"), bins1, weights=ww, **akw), True)
+                add("pd_series_replabels", lambda: h1(pd.Series(col, name=names[0], index=[k % max(1, (n + 1) // 2) for k in range(n)]), bins1, weights=ww, **akw), True)
                 add("pd_series_wseries", lambda: h1(pd.Series(col, name=names[0]), bins1, weights=(None if ww is None else pd.Series(ww)), **akw), True)
                 add("pd_series_acc", lambda: pd.Series(col, name=names[0]).physt.h1(bins1, weights=ww, **akw), True)
                 add("pd_df_acc", lambda: pd.DataFrame({names[0]: col, "w": (np.ones(n) if ww is None else ww)}).physt.h1(names[0], bins1, weights=(None if ww is None else "w"), **akw), True)
@@ -225,6 +226,8 @@ def impl(case):
                     add("columns", lambda: h2(*cols, bins, weights=ww, **akw), [("null" if x is None else str(x)) for x in colref.axis_names])
                 add("pd_df", lambda: h(pd.DataFrame(dict(zip(names, cols))), bins, weights=ww, **akw), True)
                 add("pd_df_acc", lambda: pd.DataFrame(dict(zip(names, cols))).physt.histogram(bins=bins, weights=ww, **akw), True)
+                # a frame whose index repeats its labels (two pieces concatenated without ignore_index): rows are rows, whatever they are called
+                add("pd_df_replabels", lambda: h(pd.DataFrame(dict(zip(names, cols)), index=[k % max(1, (n + 1) // 2) for k in range(n)]), bins, weights=ww, **akw), True)
                 add("pl_df", lambda: h(pl.DataFrame(dict(zip(names, cols))), bins, weights=ww, **akw), True)
                 add("pl_df_acc", lambda: pl.DataFrame(dict(zip(names, cols))).physt.h(bins=bins, weights=ww, **akw), True)
                 if nd == 2:
